@@ -763,8 +763,14 @@ def generic_tess_check(prop, tier, seed, rule_extra=""):
 
 
 def check_C03(tier, seed):
-    return generic_tess_check("C03", tier, seed, "; reciprocity checked by TLC on quantised areas/centroids/normals of both sides "
-                              "and numerically at the 1e-9 threshold in the harness; antisymmetric flux over all cells").finish()
+    out = generic_tess_check("C03", tier, seed, "; reciprocity checked by TLC on quantised areas/centroids/normals of both sides "
+                             "and numerically at the 1e-9 threshold in the harness; antisymmetric flux over all cells")
+    ng = measure_model(out, tier, seed, ["R3s", "P3a", ("P2s", dict(FAMILIES["P2a"], nmax=2)), "D1p"] if tier == "quick" else
+                       ["R3a", "P3a", "P3b", "P2a", "P2x", "D2a", "D1a", "D1p"], 6 if tier == "quick" else 80, "C03")
+    out.coverage["rule"] += (" || design level (VMeasure + VTileTrace.RecipFails): for each of %d lattice inputs (periodic ones with faces towards "
+                             "the cell's own images included) every face of positive area of every cell the specification builds has a mirror "
+                             "face in the neighbouring cell with the opposite EXACT area vector and the same EXACT centroid" % ng)
+    return out.finish()
 
 
 def check_C07(tier, seed):
